@@ -175,7 +175,12 @@ MirrorOK(e, ob, nn, RR) ==
               /\ RR % 2 = 0
               /\ \A i \in 1..nn : \A j \in 1..C :
                     ob.pts[(i - 1) * RR + C + j].v = ob.pts[(i - 1) * RR + j].m
-SymOK(e, ob) == (e.sym /\ ~e.normal) => \A p \in DOMAIN ob.pts : ob.pts[p].v = ob.pts[p].s
+\* symmetric = 2x-1 of the unit entry, stated on the generated part (the first C columns of every row);
+\* for the mirrored half it follows from MirrorOK and MirrorLaws (-(2x-1) = 2(1-x)-1), and stating it there
+\* bit for bit would compare two different floating-point roundings of the same number
+SymOK(e, ob, nn, RR) ==
+    (e.sym /\ ~e.normal) => \A i \in 1..nn : \A j \in 1..Cols(e, RR) :
+                                ob.pts[(i - 1) * RR + j].v = ob.pts[(i - 1) * RR + j].s
 QuantBad(e, ob) == IF e.normal THEN {p \in DOMAIN ob.pts : ~ob.pts[p].q} ELSE {}
 
 \* axiom check of the interpretation of probit (numeric accuracy is not decidable in TLA+):
@@ -188,7 +193,7 @@ Fails(nm, nn, RR, ob) ==
     ELSE (IF SupportOK(ob) THEN {} ELSE {"support"})
          \cup (IF StrataOK(e, ob, nn, RR) THEN {} ELSE {"strata"})
          \cup (IF MirrorOK(e, ob, nn, RR) THEN {} ELSE {"mirror"})
-         \cup (IF SymOK(e, ob) THEN {} ELSE {"symmetric"})
+         \cup (IF SymOK(e, ob, nn, RR) THEN {} ELSE {"symmetric"})
          \cup (IF QuantBad(e, ob) = {} THEN {} ELSE {"quantile"})
 ClauseOrder == <<"shape", "support", "strata", "mirror", "symmetric", "quantile">>
 FirstOf(fs) == IF fs = {} THEN "ok"
